@@ -1,4 +1,5 @@
 import Generated.CoreHandleIf
+import Proofs.PyNorm
 import Model.ErrorPolicy
 
 set_option linter.unusedSimpArgs false
@@ -43,7 +44,7 @@ macro "doi" : tactic => `(tactic|
    simp only [envH, String.reduceEq, if_true, if_false, ↓reduceIte, in_words]
    first
    | (rcases oraise with _ | (_ | _) <;> cases praise <;>
-        simp [optBool, Py.cond, Py.and_, Py.isnot, Py.strict2, Py.isb, Py.truthy, Py.ret, Py.val, words, doRaise])
+        simp [optBool, py_norm, words, doRaise])
    | skip))
 
 theorem do_i_raise_bridge (p : Policy) (o : Override) :
@@ -53,7 +54,7 @@ theorem do_i_raise_bridge (p : Policy) (o : Override) :
   obtain ⟨oraise, oprint, ostop, ofail, omatch⟩ := o
   simp only [envH, String.reduceEq, if_true, if_false, ↓reduceIte, in_words]
   rcases oraise with _ | (_ | _) <;> cases praise <;>
-    simp [optBool, Py.cond, Py.and_, Py.isnot, Py.strict2, Py.isb, Py.truthy, Py.ret, Py.val, words, doRaise]
+    simp [optBool, py_norm, words, doRaise]
 
 theorem do_i_print_bridge (p : Policy) (o : Override) :
     Py.val (Generated.HandleIf.ErrorCommsManager.do_i_print__via_self__ecm (envH p o) []) = .bool (doPrint p o) := by
@@ -62,7 +63,7 @@ theorem do_i_print_bridge (p : Policy) (o : Override) :
   obtain ⟨oraise, oprint, ostop, ofail, omatch⟩ := o
   simp only [envH, String.reduceEq, if_true, if_false, ↓reduceIte, in_words]
   rcases oprint with _ | (_ | _) <;> cases pprint <;>
-    simp [optBool, Py.cond, Py.and_, Py.isnot, Py.strict2, Py.isb, Py.truthy, Py.ret, Py.val, words, doPrint]
+    simp [optBool, py_norm, words, doPrint]
 
 theorem do_i_stop_bridge (p : Policy) (o : Override) :
     Py.val (Generated.HandleIf.ErrorCommsManager.do_i_stop__via_self__ecm (envH p o) []) = .bool (doStop p o) := by
@@ -71,7 +72,7 @@ theorem do_i_stop_bridge (p : Policy) (o : Override) :
   obtain ⟨oraise, oprint, ostop, ofail, omatch⟩ := o
   simp only [envH, String.reduceEq, if_true, if_false, ↓reduceIte, in_words]
   rcases ostop with _ | (_ | _) <;> cases pstop <;>
-    simp [optBool, Py.cond, Py.and_, Py.isnot, Py.strict2, Py.isb, Py.truthy, Py.ret, Py.val, words, doStop]
+    simp [optBool, py_norm, words, doStop]
 
 theorem do_i_fail_bridge (p : Policy) (o : Override) :
     Py.val (Generated.HandleIf.ErrorCommsManager.do_i_fail__via_self__ecm (envH p o) []) = .bool (doFail p o) := by
@@ -80,7 +81,7 @@ theorem do_i_fail_bridge (p : Policy) (o : Override) :
   obtain ⟨oraise, oprint, ostop, ofail, omatch⟩ := o
   simp only [envH, String.reduceEq, if_true, if_false, ↓reduceIte, in_words]
   rcases ofail with _ | (_ | _) <;> cases pfail <;>
-    simp [optBool, Py.cond, Py.and_, Py.isnot, Py.strict2, Py.isb, Py.truthy, Py.ret, Py.val, words, doFail]
+    simp [optBool, py_norm, words, doFail]
 
 /-- the effects of handling one error, as `_handle_if` records them -/
 def effsOf (p : Policy) (o : Override) (e : Py.V) : List Py.Eff :=
@@ -117,7 +118,7 @@ theorem handle_if_bridge (p : Policy) (o : Override) (e : Nat) (effs : List Py.E
   generalize doFail p o = b4
   generalize decide ("quiet" ∈ words p) = b6
   cases b1 <;> cases b2 <;> cases b3 <;> cases b4 <;> cases p.collect <;> cases b6 <;>
-    simp [Py.cond, Py.is_, Py.strict2, Py.isb, Py.truthy, Py.eff, Py.firstExc, Py.ret]
+    simp [py_norm]
 
 /-- … and those effects, applied to the error state, are the model's `handleOne` -/
 theorem effs_are_handleOne (p : Policy) (o : Override) (e : Nat) (s : ESt) :
